@@ -6,7 +6,8 @@ Request:  `sched  run  <locked 0|1>  <init>  <programs>  <schedule>`
   init      := `,`-separated objects that exist before the sessions start: `D<d>` database · `S<d>.<s>` schema ·
                `T<t>` empty table · `T<t>:<k>.<v>:<k>.<v>…` table with rows            (or `-`)
   programs  := sessions separated by `|`, statements by `;`:
-               `N<d>.<s>` connect · `T<t>.<c|->` CREATE TABLE [COMMENT] · `I<t>.<k>.<v>` INSERT · `R<t>` SELECT rows ·
+               `N<d>.<s>[/<cd><cs>/<lock|->]` connect (flags create_database / create_schema, lock number as seen
+               in the real trace; names are the folded names) · `T<t>.<c|->` CREATE TABLE [COMMENT] · `I<t>.<k>.<v>` INSERT · `R<t>` SELECT rows ·
                `W<t>` table metadata (exists, comment) · `G<t>.<k1>.<v1>.<k2>.<v2>…` MERGE
   schedule  := `,`-separated session ids (one turn each), or `-`; or the real trace `<sid>:<tag>,…` (see `alignAll`)
 Reply:    `impl=<observable results per session>  final=<tables>  done=<0|1>  nserial=<n>  ok=<0|1>  finding=<key|->
@@ -26,7 +27,15 @@ def pairs : List Nat → List (Nat × Nat)
 def parseStmt (locked : Bool) (s : String) : Option Stmt :=
   let tl := (s.drop 1).toString
   match s.front with
-  | 'N' => match nats tl with | some [d, sc] => some (connectStmt locked d sc) | _ => none
+  | 'N' => match tl.splitOn "/" with
+    | [ds] => match nats ds with | some [d, sc] => some (connectStmt locked d sc) | _ => none
+    | [ds, flags, lk] => match nats ds with
+      | some [d, sc] =>
+        let cd := (flags.take 1).toString == "1"
+        let cs := (flags.drop 1).toString == "1"
+        some (connectWith (if lk == "-" then none else lk.toNat?) cd cs d sc)
+      | _ => none
+    | _ => none
   | 'T' => match tl.splitOn "." with
     | [t, c] => do
       let t ← t.toNat?
@@ -132,8 +141,8 @@ def opTag : Key → Op → String
   | _, _ => "w?"
 
 def instrTag : Instr → String
-  | .acquire => "L+"
-  | .release => "L-"
+  | .acquire _ => "L+"
+  | .release _ => "L-"
   | .probe (.db _) => "pd"
   | .probe (.schema _ _) => "ps"
   | .probe _ => "p?"
